@@ -33,12 +33,21 @@ pub fn generate(kind: &str, seed: u64, run: u64, thorough: bool) -> Scenario {
     // - is loaded, optimised and matched first, on the same thread in the same process. Whatever
     // the optimiser remembers from it must not reach the rule under test.
     let mut pr = Rng::stream(seed, run, "PRIME");
-    let strings = if kind != "corpus" && pr.chance(1, 4) {
-        let tk = *pr.pick(&[4usize, 4, 4, 2, 0, 1, 5]);
+    // (rules with regexes: every second scenario, mostly the twin with the other case flags - a
+    // compiled search remembered under its text alone is the classic incomplete key)
+    let has_regex = text.contains('?');
+    let strings = if kind != "corpus" && (pr.chance(1, 4) || (has_regex && pr.chance(1, 3))) {
+        let tk = if has_regex { *pr.pick(&[0usize, 0, 0, 1, 5, 4, 2]) } else { *pr.pick(&[4usize, 4, 4, 2, 0, 1, 5]) };
         vec![gen::rule_text(&gen::twin_rule(&yaml, tk))]
     } else {
         vec![]
     };
+    let mut docs = docs;
+    if !strings.is_empty() {
+        // the twins differ in case: documents in the other case tell them apart
+        let extra: Vec<_> = docs.iter().take(4).enumerate().map(|(i, d)| gen::recase_doc(d, i % 2 == 0)).collect();
+        docs.extend(extra);
+    }
     Scenario {
         strings,
         property: "C01".into(),
